@@ -216,13 +216,18 @@ def run(an: Analysis, rep):
                 txt = inline_locals(ast.Module(body=body, type_ignores=[]), comp[0].args[0])
                 while isinstance(txt, ast.Call) and isinstance(txt.func, ast.Name) and txt.func.id == "cast" and len(txt.args) == 2:
                     txt = txt.args[1]
-                plain = (isinstance(txt, ast.Name) and umap.get(txt.id) == d) or (
-                    isinstance(txt, ast.Call) and isinstance(txt.func, ast.Attribute) and txt.func.attr == "replace" and isinstance(txt.func.value, ast.Name)
-                    and umap.get(txt.func.value.id) == d and len(txt.args) == 2 and isinstance(txt.args[0], ast.Constant) and txt.args[0].value == "\\n")
-                rep.add("R16.2", f"{fn.qual}::the text given with -{d} is compiled as given", plain, loc(m, comp[0]),
-                        "compile() receives the option's text (escaped newlines replaced), nothing else is done to it" if plain else
-                        f"compile() receives `{norm_src(txt)[:80]}`: the program text is rewritten before it is compiled, so string literals / layout of a valid program can change "
-                        f"(e.g. textwrap.dedent blanks a whitespace-only line inside a triple-quoted string) and what is printed describes another program")
+                verbatim = isinstance(txt, ast.Name) and umap.get(txt.id) == d
+                unescape = (isinstance(txt, ast.Call) and isinstance(txt.func, ast.Attribute) and txt.func.attr == "replace" and isinstance(txt.func.value, ast.Name)
+                            and umap.get(txt.func.value.id) == d and len(txt.args) == 2 and isinstance(txt.args[0], ast.Constant) and txt.args[0].value == "\\n")
+                if unescape:
+                    rep.add("R16.2", f"{fn.qual}::the text given with -{d} is compiled as given (escaped newlines)", False, loc(m, comp[0]),
+                            f"compile() receives `{norm_src(txt)[:60]}`: every backslash-n pair of the text becomes a newline, also inside string literals - the valid program "
+                            f"`x = \"a\\nb\"` given with -{d} is a SyntaxError, `x = r'a\\nb'` is decoded with a newline in the constant")
+                else:
+                    rep.add("R16.2", f"{fn.qual}::the text given with -{d} is compiled as given", verbatim, loc(m, comp[0]),
+                            "compile() receives the option's text itself" if verbatim else
+                            f"compile() receives `{norm_src(txt)[:80]}`: the program text is rewritten before it is compiled, so string literals / layout of a valid program can change "
+                            f"(e.g. textwrap.dedent blanks a whitespace-only line inside a triple-quoted string) and what is printed describes another program")
         if role == "e":
             ev = [c for c in calls if isinstance(c.func, ast.Name) and c.func.id == "eval"]
             for c in ev:
@@ -276,6 +281,15 @@ def run(an: Analysis, rep):
         ok = sorted(kinds) == ["from_code", "normalize(self)"]
         rep.add("R16.3", f"{fn.qual}::definitions of the printed variable", ok, loc(m, defs[0]) if defs else loc(m, fn.node),
                 f"`{var}` = CodeData.from_code(code), optionally replaced by normalize({var})" if ok else f"`{var}` is defined by {kinds}")
+        # --dis-after must show the instructions --dis shows: the data it re-encodes may not have gone through normalize() (which drops unreferenced table
+        # entries - nested code objects dead-code elimination left behind - and redundant EXTENDED_ARG prefixes)
+        norm_defs = [d_ for d_ in defs if isinstance(d_.value, ast.Call) and ((isinstance(d_.value.func, ast.Name) and d_.value.func.id == "normalize")
+                                                                            or (isinstance(d_.value.func, ast.Attribute) and d_.value.func.attr == "normalize"))]
+        if isinstance(tocode[0].func.value, ast.Name) and tocode[0].func.value.id == var:
+            rep.add("R16.3", f"{fn.qual}::--dis-after re-encodes the data as decoded", not norm_defs, loc(m, tocode[0]),
+                    "the re-encoded value is never normalized" if not norm_defs else
+                    f"`{norm_src(tocode[0])}` re-encodes `{var}` after `{norm_src(norm_defs[0])[:50]}` (unless --no-normalize): a nested code object that no instruction loads "
+                    f"(`def g(): return 1; def h(): return 5`) and every redundant EXTENDED_ARG prefix are missing from the --dis-after output although --dis shows them")
         fc_arg = fromcode[0].args[0] if fromcode[0].args else None
         comp_targets = {t.id for n in ast.walk(chain) if isinstance(n, ast.Assign) for t in n.targets if isinstance(t, ast.Name)
                         and isinstance(n.value, ast.Call) and ((isinstance(n.value.func, ast.Name) and n.value.func.id == "compile") or (isinstance(n.value.func, ast.Attribute) and n.value.func.attr == "get_code"))}
@@ -379,17 +393,34 @@ def run(an: Analysis, rep):
                     src = src.args[1]
                 defs = [s_ for b in node.body for s_ in ast.walk(b) if isinstance(s_, ast.Assign) and isinstance(src, ast.Name) and any(isinstance(t, ast.Name) and t.id == src.id for t in s_.targets)]
                 val = defs[0].value if len(defs) == 1 else (src if not isinstance(src, ast.Name) else None)
-                direct = isinstance(val, ast.Call) and isinstance(val.func, ast.Attribute) and val.func.attr in ("read_text", "read") \
+                direct = isinstance(val, ast.Call) and isinstance(val.func, ast.Attribute) and val.func.attr in ("read_text", "read", "read_bytes") \
                     and any(isinstance(x, ast.Name) and umap.get(x.id) == "file" for x in ast.walk(val.func.value))
-                ok = bool(direct)
-                why = f"compile() receives `{norm_src(val) if val is not None else norm_src(src)}`, the file's text as read" if ok else \
-                    f"compile() receives `{norm_src(val) if val is not None else norm_src(src)}`, not the file's text as read: the program decoded is a rewritten one (line numbers / string contents can differ)"
-            rep.add("R16.6", f"{fn.qual}::the file's text is compiled unmodified", ok, loc(m, node), why)
+                # bytes, not text: CPython decodes a source file by its BOM / PEP 263 declaration, which only compile(<bytes>) reproduces
+                as_bytes = bool(direct) and (val.func.attr == "read_bytes" or (val.func.attr == "read" and any(
+                    isinstance(x, ast.Constant) and isinstance(x.value, str) and "b" in x.value for x in ast.walk(val.func.value))))
+                ok = bool(direct) and as_bytes
+                shown = norm_src(val) if val is not None else norm_src(src)
+                why = (f"compile() receives `{shown}`, the file's bytes as read (CPython decodes them by BOM / encoding declaration)" if ok else
+                       (f"compile() receives `{shown}`, the file decoded as text with the default encoding: a UTF-8 file with a BOM is a SyntaxError, a file with `# coding: latin-1` is "
+                        f"decoded wrongly (other string constants, or UnicodeDecodeError) although CPython runs it" if direct else
+                        f"compile() receives `{shown}`, not the file's content as read: the program decoded is a rewritten one (line numbers / string contents can differ)"))
+            rep.add("R16.6", f"{fn.qual}::the file's bytes are compiled unmodified", ok, loc(m, node), why)
         i += 1
         if len(node.orelse) == 1 and isinstance(node.orelse[0], ast.If):
             node = node.orelse[0]
         else:
             break
+    # ---- R16.1 (cont.) a source option given twice is "more than one source"
+    for d_ in sources:
+        o = opts[d_]
+        if o["positional"]:
+            continue
+        kwn = {k.arg: k.value for k in o["node"].keywords}
+        rejects_repeat = "action" in kwn and not (isinstance(kwn["action"], ast.Constant) and kwn["action"].value in ("store", "append", "extend"))
+        rep.add("R16.1", f"{fn.qual}::option {o['flags'][0]} given twice is a usage error", rejects_repeat, loc(m, o["node"]),
+                "a custom action can reject the repetition" if rejects_repeat else
+                f"`{norm_src(o['node'])[:60]}` uses argparse's default `store` action: `{o['flags'][0]} A {o['flags'][0]} B` is accepted and the last value wins, although two "
+                f"program sources were given - the command should exit with a usage error")
     # ---- R16.8 nothing on the command line is ignored
     rep.rule("R16.8", "every argument is parsed: unknown or surplus arguments are a usage error", 1)
     pcs = [c for c in ast.walk(fn.node) if isinstance(c, ast.Call) and isinstance(c.func, ast.Attribute) and c.func.attr in ("parse_args", "parse_known_args", "parse_intermixed_args", "parse_known_intermixed_args")]
